@@ -65,10 +65,11 @@ def fits (cw ch w h : Nat) : Bool := !(cw > w || ch > h)
 
 /-- Which image escapes the scenario of the driver's `img` line produces: a kitty image is
 transmitted and placed in the first frame it fits into (`t`, `p`) and is always deleted by `Destroy`
-(`d`); a sixel image is written in a frame it fits into; block images are cells only. -/
-def expectedEsc (c : Cls) (drawn : Bool) : String :=
+(`d`); a sixel image is written in a frame it fits into; block images are cells only.  A picture
+scaled to zero cells on one side cannot be PNG-encoded: nothing is transmitted, yet `Draw` still places it. -/
+def expectedEsc (c : Cls) (drawn : Bool) (cw ch : Nat) : String :=
   match c with
-  | .kitty => if drawn then "kitty:tpd" else "kitty:d"
+  | .kitty => if drawn then (if cw = 0 || ch = 0 then "kitty:pd" else "kitty:tpd") else "kitty:d"
   | .sixel => if drawn then "sixel" else "none"
   | _ => "none"
 
